@@ -7,8 +7,8 @@ descendants, "wildcard" = from every root state), scripted conditions, histories
 model of the hierarchical engine + `model.state` after every call) and on the other five hierarchical classes,
 every trace judged by the verified ghost-bookkeeping monitor `C02.check` (Lean) and by a Python oracle that states
 the second sentence of the property directly.  Thorough tier adds the small scope: EVERY tree with <= 4 states x
-compound kinds x one transition (global or local) x every state as initial (9 848 cases), a fifth of the 5-state layer
-and a 1/150 sample of the 6-state layer (the residue classes rotate with the seed)."""
+compound kinds x one transition (global or local) x every state as initial (9 848 cases), a quarter of the 5-state layer
+and a 1/100 sample of the 6-state layer (the residue classes rotate with the seed)."""
 from .. import nested, nestedcheck
 from ..nestedcheck import NStream
 
@@ -49,12 +49,12 @@ class C02(nestedcheck.NestedCheck):
     level = 'proof'
     monitor_kind = 'c02m'
     streams = (
-        NStream('random', knobs=knobs, quick=(16, 60), thorough=(32, 200)),
-        NStream('random-small', knobs=knobs_small, quick=(8, 60), thorough=(16, 200)),
-        NStream('global-only', knobs=knobs_global, quick=(8, 50), thorough=(16, 150)),
+        NStream('random', knobs=knobs, quick=(16, 60), thorough=(48, 250)),
+        NStream('random-small', knobs=knobs_small, quick=(8, 60), thorough=(24, 250)),
+        NStream('global-only', knobs=knobs_global, quick=(8, 50), thorough=(24, 200)),
         NStream('exhaustive<=4', enum=enum_le4, thorough=(32, 400), others=1, tiers=('thorough',)),
-        NStream('5-states', enum=layer(5, 5), thorough=(64, 330), others=1, tiers=('thorough',)),
-        NStream('6-states', enum=layer(6, 150), thorough=(64, 140), others=1, tiers=('thorough',)),
+        NStream('5-states', enum=layer(5, 4), thorough=(64, 420), others=1, tiers=('thorough',)),
+        NStream('6-states', enum=layer(6, 100), thorough=(64, 210), others=1, tiers=('thorough',)),
     )
     theorems = ('TM.C02_inv_of_check', 'TM.C02_init', 'TM.C02_step_partial', 'TM.C02_step_clean', 'TM.C02_step_counterexample_run', 'TM.C02_step_counterexample', 'TM.C02_history', 'TM.C02_resolve_order', 'TM.C02_exit_children_first', 'TM.C02_enter_parents_first', 'TM.C02_entered_part_closed', 'TM.C02_new_configuration')
     rule = ('a case = (state tree, transition set, script, history); non-trivial iff at least one transition with a '
@@ -69,7 +69,8 @@ class C02(nestedcheck.NestedCheck):
         level='proof', design='DESIGN.md 4/C02 + design_notes/C02.md',
         technique='Lean 4 proof (executable model of the hierarchical engine, invariant + ghost bookkeeping) + '
                   'differential correspondence with the real classes + verified monitor on implementation traces',
-        text='', note='')
+        text="Lean 4 proofs, for ALL state definitions / transition sets (global and local) / non-raising scripts / histories (direct and queued): the invariant (admissible configuration, single root, states entered-and-not-exited = active states and their ancestors) holds initially and is carried by every trigger call; no state is entered while active, exited while inactive, entered before its parent or exited before an active descendant; the entered part is closed under initial descent; resolve_order and _enter_nested terminate. 'Entered and afterwards exited within one event' is proved under the exclusion 'at most one transition executes per event' and refuted in general (decide witness, four open findings). Tie to the code: trace equality model = HierarchicalMachine, verified ghost monitor + Python oracle on all six hierarchical classes, small-scope enumeration.",
+        note="Model is hand-written (tied by correspondence); callbacks do not raise and, on unqueued machines, do not trigger events; queued re-entrant triggers are covered by correspondence + monitor, the theorems assume no re-entrant commands; no final states (C18); theorem 'entered-then-exited' is partial (open findings F-C02-ete-*).")
 
     def assumptions(self):
         return (
